@@ -939,6 +939,8 @@ func runC15(p *Prog, r *Report) {
 	outputPackageRule(p, r, "C15.R8")
 	armEffectRule(p, r, "C15.R9", "config.parseConverterLine", "output:package", "OutputPackagePath", "OutputPackageName")
 	resolvePackageRelRule(p, r, "C15.R10")
+	converterArmInventoryRule(p, r, "C15.R11")
+	generateNoOwnErrorsRule(p, r, "C15.R12")
 }
 
 // c15R2b: keys of the rendered map are the fileManager keys, which are getOutputDir(conv).
